@@ -64,6 +64,20 @@ func decode(buf *[]byte, raw []byte, off int, typ byte, meta uint16) (txt []byte
 		}
 	}()
 	txt, n, err = replication.CellBytes(b, off, typ, meta, false)
+	if err == nil && len(raw) > 0 {
+		// decode another value of the same type from a private buffer before
+		// the text is read: what CellBytes returned must be private to its
+		// call (no package-level scratch buffer)
+		other := make([]byte, 0, len(raw)+len(util.Post))
+		other = append(other, raw...)
+		other[len(other)-1] ^= 0x01
+		other[0] ^= 0x10
+		other = append(other, util.Post...)
+		func() {
+			defer func() { recover() }()
+			replication.CellBytes(other, 0, typ, meta, false)
+		}()
+	}
 	return
 }
 
